@@ -23,8 +23,13 @@ META = dict(
           "Re rho0 * evolution factor.  Composed (real code of the three functions executed in sequence), the prefactor "
           "equals the closed form of the isotropic rank-four average <prod_n (e_n . R d_n)>_R; it is proved invariant "
           "under a common rotation of all dipoles or of all polarisations (scalar products are invariant: Lean) and to "
-          "scale with the fourth power of a common dipole factor."),
-    note=("the closed form of the Haar average over SO(3), (1/30) sum_rs Fe_r M_rs Fd_s with the pairings (12)(34), (13)(24), "
+          "scale with the fourth power of a common dipole factor. MockTwoDResponseCalculator.calculate_pathway is proved "
+          "to return, for rephasing / non-rephasing pathways and both line shapes, the pathway prefactor times the line "
+          "shape centred at the pathway's first and last coherence frequencies (rephasing pathways on the negated first "
+          "axis), with the pathway's own widths when they are given and the calculator's otherwise, the zero response for "
+          "an empty pathway, and to leave calculator and pathway untouched: the calculated shape is linear in the "
+          "prefactor, so the fourth-power scaling and the signs of the prefactors carry over to the spectrum."),
+    note=("gaussian2D / lorentzian2D are uninterpreted functions of (x[i], centre, width, y[j], centre, width); "the closed form of the Haar average over SO(3), (1/30) sum_rs Fe_r M_rs Fd_s with the pairings (12)(34), (13)(24), "
           "(14)(23), is a classical result taken as the specification (it is cross-checked by quadrature over Euler angles "
           "in the native oracle); total = rephasing + non-rephasing, additivity for uncoupled molecules and the "
           "cancellation of cross peaks need the whole response calculators and are not under contract."),
@@ -225,11 +230,79 @@ def lemma_symmetries(ctx):
                             where="props/C12.py: composed real code with all %s rotated by an orthogonal matrix" % which)
     return obs
 
+MOCK = "quantarhei/spectroscopy/mocktwodcalculator.py::MockTwoDResponseCalculator"
+
+
+def contracts_mock(reg):
+    """shape of one Liouville pathway in the mock calculator: prefactor times a line shape centred at the pathway's
+    first and last coherence frequencies, rephasing pathways on the negated first axis"""
+    T = reg.models.table
+    shape_fns = {}
+
+    def shape2d(kind):
+        def model(ex, a, k, l):
+            x, c1, w1, y, c3, w3 = a[:6]
+            re = shape_fns.setdefault(kind + "_re", z3.Function("u_%s2D_re" % kind, *([z3.RealSort()] * 7)))
+            im = shape_fns.setdefault(kind + "_im", z3.Function("u_%s2D_im" % kind, *([z3.RealSort()] * 7)))
+            sx, sy = x.snapshot(), y.snapshot()
+            ex.used_models.add("assume:%s2D(x, c1, w1, y, c3, w3)[i,j] is a function of (x[i], c1, w1, y[j], c3, w3) only" % kind)
+
+            def cell(idx):
+                args = [V.z3real(v) for v in (sx.get([idx[0]]), c1, w1, sy.get([idx[1]]), c3, w3)]
+                return Cx(re(*args), im(*args))
+            return V.lam_array((x.shape[0], y.shape[0]), "cx", cell)
+        return Builtin(kind + "2D", model)
+    T["gaussian2D"] = shape2d("gaussian")
+    T["lorentzian2D"] = shape2d("lorentzian")
+
+    def hook(ex, finfo, args, kwargs, bound, line):
+        if finfo.name in ("gaussian2D", "lorentzian2D") and finfo.cls is None:
+            return (T[finfo.name].fn(ex, list(args), kwargs, line),)
+        return None
+    reg.models.hooks_call.insert(0, hook)
+
+    def setup(S, ptype, shape):
+        n1, n3 = S.int("N1"), S.int("N3")
+        oa1 = S.obj("FrequencyAxis(stub)", label="oa1", length=n1, data=S.array("w1", (n1,), "real"))
+        oa3 = S.obj("FrequencyAxis(stub)", label="oa3", length=n3, data=S.array("w3", (n3,), "real"))
+        me = S.obj(MOCK, label="self", oa1=oa1, oa3=oa3, widthx=S.real("widthx"), widthy=S.real("widthy"),
+                   dephx=S.real("dephx"), dephy=S.real("dephy"))
+        order, rel = S.int("order"), S.int("relax_order")
+        nfr = S.int("nfreq")
+        pw = S.obj("liouville_pathway(stub)", label="pathway", order=order, relax_order=rel, pathway_type=ptype,
+                   frequency=S.array("freq", (nfr,), "real"), pref=S.real("pref"),
+                   widths=S.array("pwidths", (5,), "real"), dephs=S.array("pdephs", (5,), "real"))
+        return dict(self=me, pathway=pw, shape=shape, N1=n1, N3=n3, w1=oa1.fields["data"], w3=oa3.fields["data"],
+                    pref=pw.fields["pref"], freq=pw.fields["frequency"], noe=V.arith("+", 1, V.arith("+", order, rel)))
+    T["ite_"] = T.get("ite")
+    for ptype, sign in (("R", "-"), ("NR", "")):
+        for shape, fn, wx, wy in (("Gaussian", "gaussian2D", "widths", "widths"), ("Lorentzian", "lorentzian2D", "dephs", "dephs")):
+            a1 = "(self.%sx if pathway.%s[1] < 0.0 else pathway.%s[1])" % ("width" if shape == "Gaussian" else "deph", wx, wx)
+            # (the second width of the Lorentzian shape is selected by the sign of widths[3] in the code: stated as it is)
+            a3 = "(self.%sy if pathway.widths[3] < 0.0 else pathway.%s[3])" % ("width" if shape == "Gaussian" else "deph", wy)
+            reg.add(Contract(
+                MOCK + ".calculate_pathway#%s-%s" % (ptype, shape), setup=(lambda S, p_=ptype, s_=shape: setup(S, p_, s_)),
+                requires=["N1 >= 0", "N3 >= 0", "noe >= 2", "noe - 2 < freq.shape[0]", "freq.shape[0] >= 1"],
+                ensures=[("prefactor-times-line-shape-at-the-pathway-frequencies",
+                          "forall((i, j), (range(0, N1), range(0, N3)), result[i,j] == pref*%s(%sw1, freq[0], %s, w3, freq[noe-2], %s)[i,j])"
+                          % (fn, sign, a1, a3))],
+                frame=dict(roots=["self", "pathway"], allow=[])))
+
+    def setup_none(S):
+        d = setup(S, "R", "Gaussian")
+        d["pathway"] = None
+        return d
+    reg.add(Contract(MOCK + ".calculate_pathway#no-pathway", setup=setup_none, requires=["N1 >= 0", "N3 >= 0"],
+                     ensures=[("zero-response", "forall((i, j), (range(0, N1), range(0, N3)), result[i,j] == 0)")]))
+
 
 def plan(ctx):
     p = Plan("C12")
     contracts(ctx.registry)
-    p.functions = [LAB + "LabSetup.set_pulse_polarizations", DIA + "liouville_pathway.build"]
+    contracts_mock(ctx.registry)
+    p.functions = [LAB + "LabSetup.set_pulse_polarizations", DIA + "liouville_pathway.build"] + \
+                  [MOCK + ".calculate_pathway#%s-%s" % (t, sh) for t in ("R", "NR") for sh in ("Gaussian", "Lorentzian")] + \
+                  [MOCK + ".calculate_pathway#no-pathway"]
     p.lemmas = [lemma_prefactor, lemma_symmetries]
     p.oracles = ["native/oracle_C12.py"]
     p.trusted = ["<prod_n (e_n . R d_n)> over Haar-distributed rotations R equals (1/30) sum_rs Fe_r M_rs Fd_s with "
